@@ -123,7 +123,13 @@ pub fn replay(prop: &str, file: &str) -> i32 {
         }
     }
     // generic path: re-run the tier that produced it, keeping only this history
-    let _ = crate::engine::REPLAY_TARGET.set(hist_json);
+    let _ = crate::engine::REPLAY_TARGET.set(hist_json.clone());
+    // families of C06 are replayed on their own (the recorded instance only)
+    if prop == "C06" {
+        if let Some(code) = c06::replay_family(&hist_json, v["tier"].as_str().unwrap_or("quick")) {
+            return code;
+        }
+    }
     let tier = v["tier"].as_str().unwrap_or("quick").to_string();
     run(prop, &tier)
 }
